@@ -224,6 +224,22 @@ def plan_visit(schema, rm, mi, desc, lines, meta, res, cap=6, boundary=False, nv
         res.samples.append({"message": desc, "expected_log_head": full.splitlines()[:8]})
 
 
+def plan_traitsize(schema, rm, mi, desc, lines, meta, res, cap=12):
+    from ..gen import sizex
+    gs, dl = adaptive_bounds(rm, cap)
+    for shape in values.size_vectors(rm.level, gs, dl):
+        inst = values.fill(rm.level, shape, values.ByteGen(0x10))
+        placed = codec.place_message(rm, inst)
+        for sel, want, args in sizex.cases(rm, placed):
+            cid = "z%d" % len(meta)
+            lines.append("Z %s %d %d %d %s" % (cid, mi, sel, want, " ".join("%x" % a for a in args)))
+            meta[cid] = {"message": rm.name, "desc": desc, "mode": "trait size_bytes sel=%d" % sel, "shape": values.shape_str(shape),
+                         "args": args, "want": want}
+        res.distinct.add((desc, values.shape_str(shape)))
+    if len(res.samples) < 2:
+        res.samples.append({"message": desc, "trait_args(counts...,total_data)": args, "expected_size": want})
+
+
 def choice_strings(maxlen):
     out = []
     for n in range(1, maxlen + 1):
